@@ -92,15 +92,22 @@ def parent_locator(entries: dict, locator_type=G_VHDX_LOCATOR, layout="pairs"):
     return hdr + table + blob
 
 
-def metadata_region(items, sig=b"metadata"):
-    """items: [(guid, bytes, flags)] -> 1 MiB region (table at 0, items from 64 KiB)."""
+def metadata_region(items, sig=b"metadata", place=None):
+    """items: [(guid, bytes, flags)] -> 1 MiB region (table at 0, items from 64 KiB).
+    place: the order in which the item data is laid out behind the table (default: table order) - items may be stored in
+    any order and with gaps; the table entry gives each one's offset."""
     hdr = sig + b"\0\0" + struct.pack("<H", len(items)) + bytes(20)
-    ents = b""
+    offs = {}
     blob = b""
-    for g, data, flags in items:
-        ents += g.bytes_le + struct.pack("<IIII", KB64 + len(blob), len(data), flags, 0)
-        blob += data
+    for k in (place if place is not None else range(len(items))):
+        offs[k] = KB64 + len(blob)
+        blob += items[k][1]
         blob += bytes((-len(blob)) % 8)
+        if place is not None:
+            blob += bytes(8 * (k % 3))
+    ents = b""
+    for k, (g, data, flags) in enumerate(items):
+        ents += g.bytes_le + struct.pack("<IIII", offs[k], len(data), flags, 0)
     table = (hdr + ents).ljust(KB64, b"\0")
     return table + blob
 
@@ -112,7 +119,7 @@ def bat_entry(state, mb):
 def build(blocks, *, block_size, sector_size=512, disk_size, has_parent=False, locator=None, bitmaps=None, seqs=(5, 6),
           data_base_mb=None, file_id=0, sigs=None, name=None, disk_id=None, phys_sector=4096, bat_mb=3, meta_mb=2,
           omit_items=(), omit_regions=(), locator_type=G_VHDX_LOCATOR, reserved_bits=0, leave_alloc=False, locator_layout="pairs",
-          layout="std", extra_items=()):
+          layout="std", extra_items=(), meta_place=None):
     """blocks: list over real payload blocks of (state, position|None); position = index of the block-sized slot in the
     data area.  bitmaps: {chunk_index: (position_mb_slot, bytes)} for sector-bitmap blocks (differencing).
     layout: where the regions lie relative to the payload - "std" (metadata, BAT, then payload blocks), "regions-last"
@@ -174,7 +181,8 @@ def build(blocks, *, block_size, sector_size=512, disk_size, has_parent=False, l
         if it[0] not in omit_items:
             items.append(it)
     items += list(extra_items)   # (guid, data, flags): e.g. items this reader does not know, with or without IsRequired
-    meta = metadata_region(items, sig=sigs.get("metadata", b"metadata"))
+    meta = metadata_region(items, sig=sigs.get("metadata", b"metadata"),
+                           place=(meta_place(len(items)) if callable(meta_place) else meta_place))
     regs = [(G_BAT, bat_mb * MB, bat_len, 1), (G_META, meta_mb * MB, MB, 1)]
     regs = [r for r in regs if r[0] not in omit_regions]
     ext += [
